@@ -23,11 +23,18 @@ INDEX_RESULT = {"argmax", "argmin", "nonzero", "count_nonzero", "less", "less_eq
                 "not_equal", "logical_and", "logical_or", "isclose", "allclose", "isfinite", "any", "all"}
 
 
-def const_poly(rng, shape, kind, positive=False, nonzero=False):
+ACCUMULATING = {"sum", "prod", "mean", "cumsum", "inner", "outer", "matmul", "allclose", "isclose"}
+
+
+def const_poly(rng, shape, kind, positive=False, nonzero=False, exact=False):
+    """`exact`: short binary fractions only, for functions that accumulate (the order of additions is numpy's business:
+    with 0.1, 0.2, ... two correct summation orders differ in the last bits, and near cancellation not even relatively)."""
     size = int(numpy.prod(shape, dtype=int))
     # floats include values that are not short binary fractions (0.1, 0.3, 0.9): the comparison with numpy is exact
     pool = {"int": [-2, -1, 0, 1, 2, 3, 3, 1],
             "float": [-2.0, -0.5, 0.0, 0.5, 1.5, 2.0, 2.5, 0.5, 0.1, 0.2, 0.3, 0.9, 1.0, -0.1, 1.1, 0.7]}[kind]
+    if exact and kind == "float":
+        pool = [-2.0, -0.5, 0.0, 0.5, 1.5, 2.0, 2.5, 0.25, 1.0, -1.5, 0.75]
     if positive:
         pool = [v for v in pool if v >= 0]
     if nonzero:
@@ -98,18 +105,18 @@ def one_trace(rng, tid, prop):
             rec.do("constfn", [a], keep=False, fn=fn, p=p, spelling=sp, index_result=fn in INDEX_RESULT, np=[], np_out="ret")
         elif c < 0.6:
             fn = rng.choice(BINARY)
-            a = rec.new(const_poly(rng, shape, kind, positive=fn == "power"))
+            a = rec.new(const_poly(rng, shape, kind, positive=fn == "power", exact=fn in ACCUMULATING))
             s2 = gen.broadcast_partner(rng, shape) if fn not in ("outer", "inner") else ((rng.randint(1, 3),) if fn == "outer" else shape)
             if fn in ("outer", "inner") and nd != 1:
                 continue
             b = rec.new(const_poly(rng, s2, "int" if fn == "power" else kind, positive=fn == "power",
-                                   nonzero=fn in ("floor_divide", "divide", "remainder", "divmod")))
+                                   nonzero=fn in ("floor_divide", "divide", "remainder", "divmod"), exact=fn in ACCUMULATING))
             rec.do("constfn", [a, b], keep=False, fn=fn, p={}, spelling=sp, index_result=fn in INDEX_RESULT, np=[], np_out="ret")
         elif c < 0.9:
             fn = rng.choice(REDUCE)
             if nd == 0:
                 continue
-            a = rec.new(const_poly(rng, shape, kind))
+            a = rec.new(const_poly(rng, shape, kind, exact=fn in ACCUMULATING))
             p = {}
             r = rng.random()
             if fn in ("argmax", "argmin", "cumsum"):
